@@ -1177,6 +1177,15 @@ class FortranBackend(BaseBackend):
 
     @staticmethod
     def _var_to_str(y: ComputeVar) -> str:
+
+        def literal(v) -> str:
+            # a real literal without exponent letter `d` is a default (single precision) real in Fortran and would be
+            # rounded to single precision before it is stored: write double precision literals
+            s = repr(float(np.asarray(v).reshape(-1)[0]))
+            if 'inf' in s or 'nan' in s:
+                return s
+            return s.replace('e', 'd') if 'e' in s else f"{s}d0"
+
         if y.is_complex:
-            return f"({np.real(y.value)}, {np.imag(y.value)})"
-        return f"{y.value}"
+            return f"({literal(np.real(y.value))}, {literal(np.imag(y.value))})"
+        return literal(y.value)
